@@ -327,6 +327,12 @@ def _task(pmod, sub, tier, seed, shard, nshards, marker_path):
     t0 = time.time()
     out = {"sub": sub.name, "shard": shard, "failure": None, "harness_error": None}
     linecov = _linecov_start() if os.environ.get("VFW_LINECOV") else None
+    if os.environ.get("VFW_DUMP_AFTER"):
+        # debugging aid for hangs: dump all thread stacks of this worker after N seconds
+        import faulthandler
+
+        faulthandler.dump_traceback_later(int(os.environ["VFW_DUMP_AFTER"]), repeat=False,
+                                          file=open("/tmp/vfw_dump.%s.%d.%d" % (sub.name, shard, os.getpid()), "w"))
     try:
         build.load_catii(sub.variant)
         if sub.runner is not None:
